@@ -29,6 +29,8 @@ type Obligation struct {
 	Output   string
 	Model    string
 	Gen      string // non-empty: could not be generated (reason)
+	Confirmed []string // thorough tier: other solvers that independently returned the same verdict
+	Disagree  string   // thorough tier: a solver that returned the opposite definitive verdict
 	Decided  string // non-empty: verdict fixed at generation time (unsat = holds, sat = refuted with Output as reason)
 	Known    bool   // listed as a known finding: expected to fail, short timeout, no retry
 }
@@ -222,6 +224,45 @@ func DischargeAll(obls []*Obligation, scratch string, timeoutS int, par int) {
 			if !o.ExpectSat && !o.Known && o.Result != want && o.Result != "cannot-generate" && o.Result != "sat" && o.Result != "unsat" {
 				// retry once with 6x timeout: load must not become an alarm
 				Discharge(o, scratch, timeoutS*6, "")
+			}
+		}(o)
+	}
+	wg.Wait()
+}
+
+// ConfirmAll (thorough tier): every obligation discharged as unsat is re-run on the solvers that did not win the
+// race; an independent unsat is recorded, a definitive sat is a solver disagreement (reported, never a pass).
+func ConfirmAll(obls []*Obligation, scratch string, timeoutS int, par int) {
+	var wg sync.WaitGroup
+	sem := make(chan struct{}, par)
+	for _, o := range obls {
+		if o.ExpectSat || o.Decided != "" || o.Result != "unsat" || o.Gen != "" {
+			continue
+		}
+		wg.Add(1)
+		sem <- struct{}{}
+		go func(o *Obligation) {
+			defer wg.Done()
+			defer func() { <-sem }()
+			base := filepath.Join(scratch, sanitize(o.Name))
+			for _, sp := range solvers {
+				if sp.name == o.Backend {
+					continue
+				}
+				if sp.name == "cvc5" && strings.Contains(o.Query, "(lambda ") {
+					continue
+				}
+				file := base + "." + sp.name + ".smt2"
+				if _, err := os.Stat(file); err != nil {
+					continue
+				}
+				v, _, _ := runSolver(context.Background(), sp, file, timeoutS)
+				switch v {
+				case "unsat":
+					o.Confirmed = append(o.Confirmed, sp.name)
+				case "sat":
+					o.Disagree = sp.name
+				}
 			}
 		}(o)
 	}
